@@ -128,6 +128,14 @@ Fixpoint const_lit_type (t : rty) : const_ty :=
   | _ => CTOther
   end.
 
+(* impl_consts (generate/rust.rs, since /repo fd1f3f1): an associated constant is declared with
+   `r#type.as_no_option().to_const_lit_string()` -- Option wrappers (extension additions) are stripped, Default is looked
+   through by to_const_lit_string itself.  (Value references go through fmt_const with their own type, no Option there.) *)
+Definition assoc_const_type (t : rty) : const_ty := const_lit_type (as_no_option t).
+
+Lemma assoc_const_type_option t : assoc_const_type (ROption t) = assoc_const_type t.
+Proof. reflexivity. Qed.
+
 (* what C15 establishes for the integer types to_rust chooses: the bounds are values of the kind; only u64 lacks bounds *)
 Definition int_wf (k : ikind) (mn mx : option Z) : Prop :=
   (forall a, mn = Some a -> kmin k <= a) /\ (forall b, mx = Some b -> b <= kmax k) /\ ((mn = None \/ mx = None) -> k = U64).
